@@ -25,7 +25,9 @@
 EXTENDS Integers, FiniteSets, TLC
 
 CONSTANTS NB,              \* number of bases
-          NonzeroGuard
+          NonzeroGuard,
+          MulTied          \* expStepB rebuilds the multiplier's representation through the committed base power (repair of D33);
+                           \* FALSE: the step's own commitment Mul is tied to nothing
 
 Bases == 1..NB
 \* commitments: <<kind, k>>
@@ -43,6 +45,8 @@ Relations ==
     Rel(<<"pprimeIsPrime", 0>>, {<<"pprime", 0>>, <<"inner", 0>>}),
     Rel(<<"qprimeIsPrime", 0>>, {<<"qprime", 0>>, <<"inner", 0>>}),
     Rel(<<"nRep", 0>>, {<<"N", 0>>}) }                                 \* the commitment N holds n
+  \* the multiplier of every multiply step of the two exponentiation chains is the committed base power a^(2^i)
+  \cup (IF MulTied THEN { Rel(<<"mulTie", 0>>, {<<"inner", 0>>}) } ELSE {})
   \cup { Rel(<<"squaresRep", k>>, {<<"s", k>>}) : k \in Bases }        \* the commitment s_k holds base k
   \cup { Rel(<<"rootsRange", k>>, {<<"r", k>>}) : k \in Bases }
   \cup { Rel(<<"rootsValid", k>>, {<<"r", k>>, <<"s", k>>, <<"N", 0>>, <<"mm", k>>}) : k \in Bases }   \* r_k^2 = s_k mod N
@@ -51,7 +55,9 @@ Relations ==
 \*   "n"      the factors of n are almost safe but not safe primes: not all of pPprimeRel, qQprimeRel, pQNRel,
 \*            pprimeIsPrime, qprimeIsPrime can be true; the adversary picks a nonempty set of them to be false
 \*   <<"b",k>> base k is no square modulo n: rootsValid_k or squaresRep_k or nRep is false
-NRels == { <<"pPprimeRel", 0>>, <<"qQprimeRel", 0>>, <<"pQNRel", 0>>, <<"pprimeIsPrime", 0>>, <<"qprimeIsPrime", 0>> }
+\*            ("pprimeIsPrime" stands for the relations of the primality proof other than the tie of the multipliers, which is
+\*            listed on its own: a prover that commits to the true, composite (p-1)/2 can satisfy all the others and break only the tie)
+NRels == { <<"pPprimeRel", 0>>, <<"qQprimeRel", 0>>, <<"pQNRel", 0>>, <<"pprimeIsPrime", 0>>, <<"qprimeIsPrime", 0>>, <<"mulTie", 0>> }
 BRels(k) == { <<"rootsValid", k>>, <<"squaresRep", k>>, <<"nRep", 0>> }
 
 VARIABLES zero,      \* the commitments the adversary sends as 0
